@@ -203,6 +203,125 @@ def translate_method(S, ty, name, ptoks, rtoks, btoks, consts, known):
     return "\n".join([head] + lines + [f"  {res}"]), [k for _, k in params]
 
 
+# ---------------------------------------------------------------------------------------------- KSecretKey::from_str
+
+def nat_expr(S, ts, env):
+    """usize expression over `M`, locals and literals with + - < > <= >= || -> Lean term of type Option Nat / Option Bool."""
+    def split_last(ts, ops):
+        d = 0
+        for i in range(len(ts) - 1, -1, -1):
+            t = ts[i]
+            if t.k == "p" and t.v in ")]}": d += 1
+            elif t.k == "p" and t.v in "([{": d -= 1
+            elif d == 0 and t.k == "p" and t.v in ops and i > 0:
+                return i
+        return -1
+    i = split_last(ts, ["||"])
+    if i > 0:
+        return f"(Rust.Keys.or {nat_expr(S, ts[:i], env)} (fun _ => {nat_expr(S, ts[i + 1:], env)}))"
+    i = split_last(ts, ["<", ">", "<=", ">="])
+    if i > 0:
+        a, b, op = nat_expr(S, ts[:i], env), nat_expr(S, ts[i + 1:], env), ts[i].v
+        return {"<": f"(Rust.Keys.lt {a} {b})", ">": f"(Rust.Keys.lt {b} {a})", "<=": f"(Rust.Keys.le {a} {b})", ">=": f"(Rust.Keys.le {b} {a})"}[op]
+    i = split_last(ts, ["+", "-"])
+    if i > 0:
+        a, b = nat_expr(S, ts[:i], env), nat_expr(S, ts[i + 1:], env)
+        return f"(Rust.Keys.{'add' if ts[i].v == '+' else 'sub'} {a} {b})"
+    if len(ts) == 1 and ts[0].k == "num":
+        return f"(some {int(ts[0].v)})"
+    if len(ts) == 1 and is_id(ts[0]) and ts[0].v in env:
+        return f"(some {env[ts[0].v]})"
+    if len(ts) >= 3 and is_p(ts[0], "(") and S.matching(ts, 0) == len(ts) - 1:
+        return nat_expr(S, ts[1:-1], env)
+    raise KErr("usize expression")
+
+
+def translate_from_str(S, toks):
+    i = S.find_seq(toks, [("id", "impl"), ("p", "<"), ("id", "const"), ("id", "M"), ("p", ":"), ("id", "usize"), ("p", ">"), ("id", "FromStr"),
+                          ("id", "for"), ("id", "KSecretKey"), ("p", "<"), ("id", "M"), ("p", ">"), ("p", "{")])
+    if i < 0: raise KErr("impl FromStr")
+    blk = toks[i + 14:S.matching(toks, i + 13)]
+    sig = S.fn_sig(blk, "from_str")
+    if sig is None: raise KErr("from_str")
+    p = sig[0]
+    if not (len(p) == 4 and is_id(p[0]) and is_p(p[1], ":") and is_p(p[2], "&") and is_id(p[3], "str")): raise KErr("parameter")
+    raw = p[0].v
+    if [str(t.v) for t in sig[1]] != ["Result", "<", "Self", ",", "KeyTooLongError", ">"]: raise KErr("return type")
+    body = sig[2]
+    env, bufs, lines, k = {"M": "M"}, {}, [], 0
+    n = [0]
+    def fresh(x):
+        n[0] += 1
+        return f"{x}_{n[0]}"
+    while k < len(body):
+        t = body[k]
+        if is_id(t, "let"):
+            e, dpt = k, 0
+            while not (dpt == 0 and is_p(body[e], ";")):
+                if body[e].k == "p" and body[e].v in "([{": dpt += 1
+                elif body[e].k == "p" and body[e].v in ")]}": dpt -= 1
+                e += 1
+            st = body[k + 1:e]
+            if is_id(st[0], "mut"): st = st[1:]
+            if not (is_id(st[0]) and is_p(st[1], "=")): raise KErr("let")
+            name, rhs = st[0].v, st[2:]
+            if len(rhs) == 5 and is_id(rhs[0], raw) and is_p(rhs[1], ".") and is_id(rhs[2], "len") and is_p(rhs[3], "(") and is_p(rhs[4], ")"):
+                v = fresh(name); lines.append(f"  let {v} := {raw}_.length"); env[name] = v
+            elif len(rhs) == 5 and is_p(rhs[0], "[") and rhs[1].k == "num" and int(rhs[1].v) == 0 and is_p(rhs[2], ";") and is_id(rhs[3], "M") and is_p(rhs[4], "]"):
+                v = fresh(name); lines.append(f"  let {v} := List.replicate M (0 : UInt8)"); bufs[name] = v
+            else:
+                v = fresh(name); lines.append(f"  let {v} ← {nat_expr(S, rhs, env)}"); env[name] = v
+            k = e + 1
+        elif is_id(t, "if"):
+            b = k + 1
+            while not is_p(body[b], "{"): b += 1
+            e = S.matching(body, b)
+            inner = [str(x.v) for x in body[b + 1:e]]
+            if inner != ["return", "Err", "(", "KeyTooLongError", ")", ";"]: raise KErr("if body")
+            lines.append(f"  if (← {nat_expr(S, body[k + 1:b], env)}) then return (Except.error () : Except Unit SecretKey)")
+            k = e + 1
+        elif is_id(t) and t.v in bufs and is_p(body[k + 1], "["):
+            e = S.matching(body, k + 1)
+            rng = body[k + 2:e]
+            d = [j for j, x in enumerate(rng) if is_p(x, "..")]
+            if len(d) != 1: raise KErr("range")
+            lo = nat_expr(S, rng[:d[0]], env) if d[0] > 0 else "(some 0)"
+            if d[0] + 1 >= len(rng): raise KErr("open range")
+            hi = nat_expr(S, rng[d[0] + 1:], env)
+            if not (is_p(body[e + 1], ".") and is_id(body[e + 2], "copy_from_slice") and is_p(body[e + 3], "(")): raise KErr("slice use")
+            ce = S.matching(body, e + 3)
+            src = body[e + 4:ce]
+            if len(src) == 1 and src[0].k == "bstr":
+                stx = lean_lit(bytes(src[0].v))
+            elif len(src) == 5 and is_id(src[0], raw) and is_p(src[1], ".") and is_id(src[2], "as_bytes") and is_p(src[3], "(") and is_p(src[4], ")"):
+                stx = raw + "_"
+            else:
+                raise KErr("copy source")
+            if not is_p(body[ce + 1], ";"): raise KErr("statement end")
+            v = fresh(t.v); lines.append(f"  let {v} ← Rust.Keys.copyInto {bufs[t.v]} {lo} {hi} {stx}"); bufs[t.v] = v
+            k = ce + 2
+        elif is_id(t, "Ok") and is_p(body[k + 1], "("):
+            e = S.matching(body, k + 1)
+            if e != len(body) - 1: raise KErr("Ok not last")
+            inner = body[k + 2:e]
+            if not (is_id(inner[0], "Self") and is_p(inner[1], "{") and S.matching(inner, 1) == len(inner) - 1): raise KErr("Ok shape")
+            fields = split_top(S, inner[2:-1], ",")
+            buf = ln = None
+            for f in fields:
+                if len(f) == 1 and is_id(f[0], "prefixed_key"): buf = bufs.get("prefixed_key")
+                elif len(f) >= 3 and is_id(f[0], "prefixed_key") and is_p(f[1], ":") and len(f) == 3 and is_id(f[2]): buf = bufs.get(f[2].v)
+                elif len(f) >= 3 and is_id(f[0], "len") and is_p(f[1], ":"): ln = nat_expr(S, f[2:], env)
+                elif len(f) == 1 and is_id(f[0], "len"): ln = f"(some {env['len']})"
+                else: raise KErr("field")
+            if buf is None or ln is None: raise KErr("fields")
+            lines.append(f"  return Except.ok {{ buf := {buf}, len := (← {ln}) }})")
+            k = e + 1
+        else:
+            raise KErr("statement: " + str(t.v))
+    if not lines or not lines[-1].startswith("  return Except.ok"): raise KErr("no Ok")
+    return "\n".join([f"def KSecretKey.from_str (M : Nat) ({raw}_ : Bytes) : KeyOutcome := Rust.Keys.finish (do"] + lines)
+
+
 def lean_type(ty, kinds):
     return "(Bytes → Bytes) → " + LEAN_SELF[ty] + " → " + "".join(f"({LEAN_PARAM[k]}) → " for k in kinds) + "Bytes"
 
@@ -264,6 +383,18 @@ def generate_keys(S, repo):
             defs.append(f"def {ty}.{name} : {lt} := fun {under} => []   -- stub: the method is outside the translator's subset on this tree\n")
             wraps.append(f"def signing_key.{ty}_{name}? : Option ({lt}) := none   -- outside the translator's subset on this tree")
             items[key] = "unreadable"
+    try:
+        ftext = translate_from_str(S, toks) if toks is not None else None
+    except Exception:                                                   # noqa
+        ftext = None
+    if ftext:
+        defs.append(ftext + "\n")
+        wraps.append("def signing_key.KSecretKey_from_str? : Option (Nat → Bytes → KeyOutcome) := some keys.KSecretKey.from_str")
+        items["signing_key.KSecretKey.from_str"] = "read"
+    else:
+        defs.append("def KSecretKey.from_str : Nat → Bytes → KeyOutcome := fun _ _ => .panic \"untranslated\"   -- stub\n")
+        wraps.append("def signing_key.KSecretKey_from_str? : Option (Nat → Bytes → KeyOutcome) := none   -- outside the translator's subset on this tree")
+        items["signing_key.KSecretKey.from_str"] = "unreadable"
     header = [
         "/-",
         "  GENERATED by /verif/srcgen/srcgen.py (keychain.py) from /repo/src/signing_key.rs — do not edit; regenerated on every",
